@@ -522,6 +522,17 @@ Section WithVars.
     | _ :: xs => last_stmt xs
     end.
 
+  (* fn falls_through_without_value (since 2b939af): control reaches the end of the block and the block has no value *)
+  Definition falls_through (body : list stmt) : bool :=
+    match last_stmt body with
+    | Some (SStatementExpression _ _) | Some (SRet _ _) | Some (SBreak _) | Some (SContinue _)
+    | Some (SUnreachable _) => false
+    | _ => true
+    end.
+
+  Definition if_falls (b : ifbranch) : bool := match b with IfBranch _ body _ => falls_through body end.
+  Definition case_falls (b : casebranch) : bool := match b with CaseBranch _ _ _ body _ => falls_through body end.
+
   (* fn expression_block (672): every statement, then the last one once more as a value if it is an
      expression statement *)
   Definition expression_block (R : arec) (sp : span) (stmts : list stmt) (ctx : tctx)
@@ -720,6 +731,8 @@ Section WithVars.
            | None =>
              value <- foldM (fun (acc : option tyid) (b : option tyid * option tyid) =>
                                unify_option G sp (snd b) acc) tys None ;;
+             (* a branch that can be left without producing a value makes the whole expression valueless (2b939af) *)
+             value <- (if existsb if_falls branches then vd <- push_type HVoid ;; ret (Some vd) else ret value) ;;
              v <- value_or_ret value r ;;
              ret (r, v)
            end
@@ -740,6 +753,8 @@ Section WithVars.
                            g_check G sp m ;;;
                            ret (r, value)
                          end) ;;
+         value <- (if existsb case_falls branches || (match fall with Some ft => falls_through ft | None => false end)
+                   then vd <- push_type HVoid ;; ret (Some vd) else ret value) ;;
          v <- value_or_ret value r ;;
          ret (r, v)
        | EFunction _ params rty body pure sp =>
